@@ -196,13 +196,9 @@ H("C18", "wdt", _W, "quick", "C18.d MWMO emission rule is stable under write->re
 # c18b_maid_roundtrip_1_section, c18b_main_roundtrip (64x64 grids of nested Vecs), c18c_mwmo_roundtrip (String::from_utf8 on symbolic bytes).
 H("C18", "wdt", _W, "quick", "canary", ["c18_wdt_canary"], ["tile_to_world"], "vacuity twin", "-", expect="canary")
 _L = "verif_kani_wdl"
-H("C18", "wdl", _L, "thorough", "C18.f WDL file writer: every MAOF entry of a present tile is the file offset of that tile's MARE chunk (magic, 1090 bytes, the tile's heights), "
-  "a MAHO chunk follows exactly the tiles with holes (never in a version without MAHO), absent tiles have offset 0, the chunks tile the file to its end",
-  ["c18f_wdl_writer_offsets_wotlk_middle_without_holes", "c18f_wdl_writer_offsets_wotlk_no_holes", "c18f_wdl_writer_offsets_vanilla", "c18f_wdl_writer_offsets_legion_all_holes"],
-  ["parser::WdlParser::write", "types::HeightMapTile::write", "types::HolesData::write", "types::Chunk::{new,write}"],
-  "three tiles at (3,0), (5,0), (0,1); one outer and one inner height and one hole mask per tile symbolic; which tiles carry holes and the version concrete per harness; probe index over the 4093 absent tiles symbolic",
-  "3 tiles, full 64x64 MAOF table, 20 KiB output; no WMO / model chunks",
-  stubs=[FMT, "HashMap -> association-list model in the scratch copy (catalogue rewrite)"], timeout=2400, mem_gb=32)
+# NOT registered: c18f_wdl_writer_offsets_* (harness/wdl/wdl.rs; WdlParser::write on a 3-tile map against its MAOF table, HashMap modelled by
+# VMap): symbolic execution alone needs > 40 min - the Vec iterators of HeightMapTile::write are unrolled to the global bound 4100 that the
+# 64x64 loops require (about one unrolling per second).  The MAOF offset table of the WDL writer stays outside the C18 claim.
 H("C18", "wdl", _L, "quick", "C18.e WDL records: write(read(b)) == b with exactly the documented size",
   ["c18e_wdl_vec3d", "c18e_wdl_bbox", "c18e_wdl_model_placement", "c18e_wdl_m2_placement", "c18e_wdl_m2_visibility", "c18e_wdl_holes"],
   ["types::Vec3d::{read,write}", "types::BoundingBox::{read,write}", "types::ModelPlacement::{read,write}", "types::M2Placement::{read,write}",
@@ -277,6 +273,8 @@ H("C01", "mpq", _BP, "quick", "C01.d / C10.d edge sizes with sector checksums re
   ["c01d_empty_file_crc", "c01d_one_byte_file_crc"], _pathfns + ["adler2::adler32_slice"],
   "0-byte file: encryption and key-adjust flags symbolic; 1-byte file: content symbolic, compression requested (cannot shrink)", "files of 0 and 1 bytes",
   stubs=[FMT, MEMFILE, CODEC], abstraction_stubs=["compress", "decompress"], timeout=900)
+# NOT registered: c01d_su_break_even / c01d_su_codec_expands (real compress() between builder and reader with only zlib stubbed): 15 min
+# time-out; the break-even decision of compress() is decided under C03.a (c03a_store_raw_*), the reader's raw-or-compressed rule under C01.d.
 H("C01", "mpq", _BP, "quick", "canary", ["c01d_canary"], _pathfns, "vacuity twin", "-", expect="canary", stubs=[FMT, MEMFILE])
 
 # =============================================================================== C17
@@ -427,14 +425,14 @@ H("C19", "ffi", _F, "thorough", "C19.a read step: exactly min(to_read, remaining
 H("C19", "ffi", _F, "thorough", "C19.c never-issued and closed handles are errors", ["c19c_stale_handle"], ["SFileReadFile", "SFileCloseFile"],
   "handle 9 never issued, handle 7 closed before use", "-", stubs=[FMT, RS], timeout=2400)
 H("C19", "ffi", _F, "thorough", "C19.a info and size queries on an open file: the answer is the file's length / cursor, nothing is written beyond buffer_size (or at all on failure), "
-  "size_needed is reported; closing one file handle leaves the other valid and the closed one invalid",
-  ["c19a_file_info_step", "c19a_file_size_step"], ["SFileGetFileInfo", "get_file_info", "SFileGetFileSize", "SFileCloseFile"],
+  "size_needed is reported",
+  ["c19a_file_info_step", "c19a_file_size_step"], ["SFileGetFileInfo", "get_file_info", "SFileGetFileSize"],
   "file of 3 symbolic bytes, cursor in 0..=3, info class u32, buffer_size in 0..=16, presence of the optional out-pointers symbolic; 24-byte buffer with guard zone",
   "one call on fabricated FILES entries", stubs=[FMT, RS], timeout=2400)
 H("C19", "ffi", _F, "thorough", "C19.a SFileGetArchiveName succeeds exactly when path + NUL fit buffer_size and never writes beyond it",
   ["c19a_archive_name_fit"], ["SFileGetArchiveName"],
   "buffer_size in 0..=8 symbolic, path \"a.mp\" (4 bytes), 8-byte buffer with guard zone", "one call on a fabricated ARCHIVES entry (wow_mpq::Archive built from empty tables)",
-  stubs=[FMT, RS], timeout=2400)
+  stubs=[FMT, RS], timeout=2400, mem_gb=48)
 H("C19", "ffi", _F, "quick", "canary", ["c19_canary"], ["SFileGetFileSize"], "vacuity twin", "-", expect="canary", stubs=[FMT])
 
 # =============================================================================== C05 (mpq parsers)
@@ -556,6 +554,9 @@ H("C05", "mpq", _AT, "quick", "C05.mpq.5 (attributes) parser is total on hostile
 # c02d_builder_to_reference_ms_* (builder -> reference reader of the multi-sector layout) are NOT registered:
 # 20 min time-out / memory cap on this machine (512-byte sector copies + a data-dependent raw/compressed
 # decision per sector); the sector layout of compressed multi-sector files stays outside the C02 claim.
+H("C10", "mpq", _BP, "quick", "C10.d a file the builder flags as carrying a sector checksum carries it, also when it is empty (Adler-32 of zero bytes = 1) - otherwise the intact archive fails verification",
+  ["c10d_empty_file_checksum_written"], ["builder::ArchiveBuilder::write_file"], "0-byte file, encryption and key-adjust flags symbolic", "one empty file",
+  stubs=[FMT, MEMFILE, CODEC], abstraction_stubs=["compress", "decompress"], timeout=900)
 H("C10", "mpq", _BP, "thorough", "C10.d acceptance implies the checksum matches: a data byte altered and the stored checksum replaced by arbitrary bytes - whenever the read succeeds the stored checksum is the Adler-32 of what is returned",
   ["c10d_accept_implies_checksum_matches"], _pathfns + ["adler2::adler32_slice"],
   "2-byte file content, fault offset/mask and 4 replacement checksum bytes symbolic", "2-byte single-unit file; reference Adler-32 in closed form",
